@@ -55,8 +55,10 @@ func init() {
 		r.Set("max_depth", o.MaxDepth)
 		r.Set("universe_size", K+1)
 		r.Set("noop_intervals_checked", o2["noop_checked"])
+		r.Set("transitions_from_17_and_33_class_sets", o2["large_set_transitions"])
+		r.Set("states_reached_through_ast_nodes", o2["states_via_nodes"])
 		r.Set("evaluations", o.Transitions)
-		r.Set("rule", "BFS to closure over the real DisjunctRangeSet: state = List() content, operations = AddRange(f,t) for all f,t in the universe; every transition is an execution of the real AddRange on a fresh object rebuilt from the shortest path; distinct = distinct reachable class lists")
+		r.Set("rule", "BFS to closure over the real DisjunctRangeSet: state = List() content, operations = AddRange(f,t) for all f,t in the universe; every transition is an execution of the real AddRange (and, in a second exploration, AddLexTNode with the AST nodes a grammar produces) on a fresh object rebuilt from the shortest path; plus every sequence of two operations over a window of bounds applied to sets that already hold 17 and 33 classes; distinct = distinct reachable class lists")
 		for _, s := range o.Samples {
 			r.Sample(s)
 		}
